@@ -109,3 +109,13 @@ Proof.
     repeat (destruct p as [| [[? ?] ?] p]; simpl in H; try discriminate);
     cbv [map]; unfold_geom; ring.
 Qed.
+
+(* translation x |-> x + t leaves every element volume unchanged *)
+Lemma elem_vol24_translate : forall v t (p : list RV3), length p = arity t ->
+  elem_vol24_pts ROps t (map (vadd ROps v) p) = elem_vol24_pts ROps t p.
+Proof.
+  intros [[v1 v2] v3] t p H.
+  destruct t; simpl in H;
+    repeat (destruct p as [| [[? ?] ?] p]; simpl in H; try discriminate);
+    cbv [map]; unfold_geom; ring.
+Qed.
